@@ -30,7 +30,14 @@
                                    C05_analyze_all_cancelled_refuted_pinned (depth 3, value 0, twelve lines of which two attain the
                                    value; the unrepaired engine did the same), C05_analyze_all_cancelled_fixed (the repaired model:
                                    one line, Canceled), C05_example_cancelled_during_second_pass (prefixes).
-     dedup_value_preserving        not proved and not modelled (DedupSymmetry); judged by the exhaustive oracle only.
+     dedup_value_preserving        MODELLED (SearchDedup.v: pvSearch's per-node symmetry cache; Search.v unchanged, the model with the option
+                                   off IS Search.v's: C05_dedup_off; configurations with the option run as model cases of the check) and
+                                   PROVED (block at the end): precise options, no table, DedupSymmetry on, an evaluator invariant under the
+                                   eight images (EvaluateWinner: proved to be one), games under the default configuration with at most 64
+                                   pieces: Analyze reports nmx d p with a first move attaining it, exactly as without the option
+                                   (C05_dedup_value_preserving_winner / _sym); hash hypothesis dedup_nocollision.  Ingredient:
+                                   C05_dedup_nmx_image (exhaustive negamax is invariant under the images).  Every other theorem of this
+                                   file is about Search.analyze_* = the model with the option OFF and claims nothing about dedup = true.
      tt_valid_preserved / win_sound_complete (the table clause)   PROVED for the engine model Search.v with MakePrecise options, a table
         of any size and content, sort on/off, both evaluators of the check, every call cancelled anywhere or never, on a fresh engine or
         after ANY history of such calls (C05_table_win_sound_complete; abstract form C05_table_win_sound_complete_abstract; invariant
@@ -542,3 +549,84 @@ Theorem C05_table_sound_example :
   sound_verdict gen_basis rootw (r_value (snd runR2)) /\ WinThreshold < r_value (snd runR2) /\ (exists n, W gen_basis n rootw).
 Proof. exact sound_theorem_applies. Qed.
 Print Assumptions C05_table_sound_example.
+
+
+(* ================================================================================================================================
+   SYMMETRY DE-DUPLICATION (Cfg.DedupSymmetry; model SearchDedup.v, proofs SearchDedup2-4.v, example SearchDedupEx.v)
+   ================================================================================================================================ *)
+Require Import SearchDedup SearchDedupInst SearchDedup2 SearchDedup3 SearchDedup4 SearchDedupEx.
+Require Import5.
+
+(* with the option off the model of SearchDedup.v IS Search.v's engine (Analyze and AnalyzeAll, any configuration, table, cancellation
+   point, state) - so every theorem about Search.analyze_gen is a theorem about the dedup-capable model at dedup = false *)
+Theorem C05_dedup_off : forall basis cfg k s p,
+  analyze_gen_d basis cfg k false s p = analyze_gen false basis cfg k s p /\
+  analyze_all_gen_d basis cfg k false s p = analyze_all_gen false basis cfg k s p.
+Proof. exact dedup_off. Qed.
+Print Assumptions C05_dedup_off.
+
+(* exhaustive negamax is invariant under the eight rebuilt images, for an evaluator that is.  G p = OpeningFacts2.good p (C01's invariant,
+   reserves = default set minus board, BlackWinsTies off, opening-ply invariant) /\ total p <= 64; imgk p k = the k-th image Symmetries builds *)
+Theorem C05_dedup_nmx_image : forall eval, (forall p k, (k < 8)%nat -> G p -> eval (Import5.imgk p k) = eval p) ->
+  forall d p k, (k < 8)%nat -> G p -> nmx gen_basis eval d (Import5.imgk p k) = nmx gen_basis eval d p.
+Proof. exact nmx_image. Qed.
+Print Assumptions C05_dedup_nmx_image.
+
+Theorem C05_dedup_winner_symmetric : forall p k, (k < 8)%nat -> G p -> evaluate_winner (Import5.imgk p k) = evaluate_winner p.
+Proof. exact ewinner_symmetric. Qed.
+Print Assumptions C05_dedup_winner_symmetric.
+
+(* the search part alone, for any basis / evaluator / position sets: relative to "a skipped successor has the value of the successor whose
+   symmetry class put its hash into the cache" *)
+Theorem C05_dedup_value_preserving_partial : forall basis cfg k dedup, c_nonull cfg = true -> c_noreduce cfg = true -> c_multicut cfg = false ->
+  forall Pos : nat -> position -> Prop,
+  (forall d p q, Pos (S d) p -> is_over p = false -> In q (children basis p) -> Pos d q) ->
+  (forall d p m q, Pos (S d) p -> is_over p = false -> okm m -> try_move basis p m = Some q -> In q (children basis p)) ->
+  (forall d p, Pos (S d) p -> is_over p = false -> children basis p <> []) ->
+  (forall d p q q', Pos (S d) p -> is_over p = false -> move p < max_dedup -> In q (children basis p) -> In q' (children basis p) ->
+     In (phash q) (sym_hashes basis q') -> nmx basis (c_eval cfg) d q = nmx basis (c_eval cfg) d q') ->
+  (forall d p, Pos d p -> MinEval <= c_eval cfg p <= MaxEval) ->
+  forall s p sk pv v d acc c, SI s -> (forall d0, (1 <= d0 <= 16)%nat -> Z.of_nat d0 <= c_depth cfg -> Pos d0 p) ->
+  analyze_gen_d basis cfg k dedup s p = (sk, (pv, v, d, acc, c)) -> SI sk /\ (0 < d -> exact_result basis cfg p pv v d).
+Proof. exact analyze_dedup_exactx. Qed.
+Print Assumptions C05_dedup_value_preserving_partial.
+
+(* dedup_value_preserving, EvaluateWinner: no hypothesis about the rules engine or the evaluator.  U = the positions the call may touch
+   (closedU: successors of live U (S d) positions are in U d); dedup_nocollision (PosG U): for successors q, q' of one live node of the first
+   four plies, Hash(q) = Hash(image q' k) implies q = image q' k. *)
+Theorem C05_dedup_value_preserving_winner : forall cfg U, precise cfg -> c_eval cfg = evaluate_winner -> closedU U -> dedup_nocollision (PosG U) ->
+  forall k dedup s p sk pv v d acc c, SI s -> base_ok p -> G p -> move p + 16 <= max_terminal_ply ->
+  (forall d0, (1 <= d0 <= 16)%nat -> Z.of_nat d0 <= c_depth cfg -> U d0 p) ->
+  analyze_gen_d gen_basis cfg k dedup s p = (sk, (pv, v, d, acc, c)) ->
+  SI sk /\ (0 < d -> exact_result gen_basis cfg p pv v d).
+Proof. exact analyze_dedup_exact_winner. Qed.
+Print Assumptions C05_dedup_value_preserving_winner.
+
+(* ... and for every evaluator that is invariant under the images and inside the root window (the property's "symmetric evaluator") *)
+Theorem C05_dedup_value_preserving_sym : forall cfg, precise cfg ->
+  (forall p k, (k < 8)%nat -> G p -> c_eval cfg (Import5.imgk p k) = c_eval cfg p) ->
+  (forall d p, PosD d p -> MinEval <= c_eval cfg p <= MaxEval) -> forall U, closedU U -> dedup_nocollision (PosG U) ->
+  forall k dedup s p sk pv v d acc c, SI s -> base_ok p -> G p -> move p + 16 <= max_terminal_ply ->
+  (forall d0, (1 <= d0 <= 16)%nat -> Z.of_nat d0 <= c_depth cfg -> U d0 p) ->
+  analyze_gen_d gen_basis cfg k dedup s p = (sk, (pv, v, d, acc, c)) ->
+  SI sk /\ (0 < d -> exact_result gen_basis cfg p pv v d).
+Proof. exact analyze_dedup_exact_64. Qed.
+Print Assumptions C05_dedup_value_preserving_sym.
+
+(* G holds along every game from a G position (tak.New under the default configuration: OpeningFacts2.new_pos_good) *)
+Theorem C05_dedup_G_replay : forall ms p q, G p -> Reach1.replay p ms = Ok q -> G q.
+Proof. exact G_replay. Qed.
+Print Assumptions C05_dedup_G_replay.
+
+(* non-vacuity: the empty 3x3 board, depth 2, EvaluateWinner, option ON: every hypothesis holds (dedup_nocollision by a boolean check over
+   the tree), the theorem applies; the run with the option visits fewer positions than the run without and reports the same value = nmx *)
+Theorem C05_dedup_example :
+  precise cfg_dd /\ c_eval cfg_dd = evaluate_winner /\ closedU Udd /\ dedup_nocollision (PosG Udd) /\ base_ok start3 /\ G start3 /\
+  exact_result gen_basis cfg_dd start3 (r_pv (snd run_on)) (r_value (snd run_on)) (r_depth (snd run_on)).
+Proof. exact dedup_theorem_applies. Qed.
+Print Assumptions C05_dedup_example.
+
+Theorem C05_dedup_example_runs : r_value (snd run_on) = r_value (snd run_off) /\ r_depth (snd run_on) = 2 /\ r_depth (snd run_off) = 2 /\
+  s_visited (r_acc_d (snd run_on)) < s_visited (r_acc_d (snd run_off)) /\ r_value (snd run_on) = nmx gen_basis evaluate_winner 2 start3.
+Proof. exact runs_dd. Qed.
+Print Assumptions C05_dedup_example_runs.
